@@ -63,12 +63,6 @@ Proof.
   unfold toks_ok in *. rewrite H1, H2. reflexivity.
 Qed.
 
-Lemma toks_ok_insert_before_last l t : toks_ok l = true -> tok_ok t = true -> toks_ok (insert_before_last l t) = true.
-Proof.
-  intros H Ht. unfold insert_before_last. destruct (rev l) as [|x r] eqn:E; [cbn; rewrite Ht; reflexivity|].
-  rewrite <- toks_ok_rev in H. rewrite E in H. cbn in H. apply andb_true_iff in H. destruct H as [Hx Hr].
-  rewrite toks_ok_app, toks_ok_rev. unfold toks_ok at 1. rewrite Hr. cbn. rewrite Ht, Hx. reflexivity.
-Qed.
 
 (* handlers keep the invariant *)
 Definition tspec (h : bhandler) : Prop := forall rk m st rf st2 rf2 np, h rk m st rf = Ok (st2, rf2, np) -> sinv st -> sinv st2.
@@ -127,7 +121,7 @@ Proof.
   destruct (parse_child C h sta text rfa) as [[ch rf3]| |] eqn:Ec; try discriminate.
   pose proof (parse_child_typed h _ _ _ _ _ Ht Ec) as Hch.
   destruct (Block.truthy e); inversion H; subst.
-  - unfold sinv. cbn. apply toks_ok_insert_before_last; [exact Hsa|cbn; exact Hch].
+  - unfold sinv. cbn. apply toks_ok_insert; [exact Hsa|cbn; exact Hch].
   - apply sinv_append; [exact Hsa|cbn; exact Hch].
 Qed.
 
